@@ -6,7 +6,9 @@ import Quanto.AwqSelect
 namespace Quanto
 
 theorem awqSelectedGen_eq (c : CreateCfg) : awqSelectedGen c = some (awqSelected c) := by
+  -- (robust to a reordering of the conjuncts in the source: `&&` is compared up to associativity / commutativity)
   simp [awqSelectedGen, Generated.awqCreateConds, evalCreateCond, awqSelected, List.foldl]
+  try ac_rfl
 
 theorem awqSelected_iff (c : CreateCfg) :
     awqSelected c = true ↔ (c.qtype = "qint4" ∧ c.dtype = "f16" ∧ c.axis = 0 ∧ c.groupSize = 128 ∧
